@@ -24,6 +24,8 @@ class C11(F.Spec):
             yield self.gen_probe(rng, i)
         for i in range(60 if tier == "quick" else 800):
             yield self.gen_scenario(rng, i)
+        for i in range(3 if tier == "quick" else 12):
+            yield self.gen_scenario(rng, i, late=True)
 
     def gen_probe(self, rng, i):
         ops = ["board relay4", "init", "adv 1000"]
@@ -37,14 +39,20 @@ class C11(F.Spec):
             ops.append("debprobe %d %s" % (rng.randrange(4), bits))
         return F.Case("probe%d" % i, ops, {"tags": ["kind:probe"], "kind": "probe"})
 
-    def gen_scenario(self, rng, i):
+    def gen_scenario(self, rng, i, late=False):
         ops = ["board relay2", "init", "adv 1000"]
         pin = 10          # input 1: plain monostable button on relay gpio 2, pull-up (idle level 1)
         ops.append("input %d 1" % pin)
         ops.append("adv 500")
+        if late:
+            # the device has been up for one full period of the 32-bit microsecond counter (71.6 min; the server answers
+            # the pings): the presses fall into the first 400 ms after init_time + 2^32 us
+            for _ in range(4292):
+                ops += ["adv 1000", "pingreply"]
+            ops.append("adv %d" % (4294967 - 4292000 - 1500 - 300 - rng.randint(0, 250)))
         pulses = []
-        for _ in range(rng.randint(1, 5)):
-            w = rng.choice([1, 5, 19, 20, 21, 50, 79, 80, 85, 90, 95, 99, 140, 141, 160, 200, 500, 1500])
+        for _ in range(rng.randint(1, 5) if not late else 2):
+            w = rng.choice([1, 5, 19, 20, 21, 50, 79, 80, 85, 90, 95, 99, 140, 141, 160, 200, 500, 1500]) if not late else rng.choice([140, 160, 200])
             phase = rng.randint(0, 19)
             ops.append("adv %d" % (300 + phase))
             if rng.random() < 0.4:
@@ -62,7 +70,8 @@ class C11(F.Spec):
             for _ in range(30):
                 ops.append("adv 10")
             pulses.append(w)
-        return F.Case("scen%d" % i, ops, {"tags": ["kind:scenario"], "kind": "scenario", "pulses": pulses, "pin": pin})
+        return F.Case("scen%d%s" % (i, "-late" if late else ""), ops, {"tags": ["kind:scenario"] + (["late"] if late else []), "kind": "scenario", "pulses": pulses, "pin": pin,
+                                                                          "noshrink": late})
 
     def derive_model(self, case, raw):
         ops, exp = [], []
